@@ -28,9 +28,37 @@ pub mod info {
         pub order_version: usize,
     }
 
+    pub mod keyspec {
+    use vstd::prelude::*;
+    // 1 + the first index holding Some(id); 0 when absent
+    pub open spec fn spec_get(ids: Seq<Option<usize>>, id: usize) -> int
+        decreases ids.len(),
+    {
+        if ids.len() == 0 {
+            0
+        } else if ids[0] == Some(id) {
+            1
+        } else {
+            let r = spec_get(ids.subrange(1, ids.len() as int), id);
+            if r == 0 { 0 } else { r + 1 }
+        }
+    }
+    pub broadcast proof fn lemma_get_nonneg(ids: Seq<Option<usize>>, id: usize)
+        ensures 0 <= #[trigger] spec_get(ids, id),
+        decreases ids.len(),
+    {
+        if ids.len() > 0 && ids[0] != Some(id) {
+            lemma_get_nonneg(ids.subrange(1, ids.len() as int), id);
+        }
+    }
+
+    }
+    use keyspec::*;
+    broadcast use keyspec::lemma_get_nonneg;
+
     // Singleton<ContextInfo> = Rc<RefCell<ContextInfo>> seen from DocumentOrder: only `.borrow().id` and
-    // `Rc::downgrade(..)` are used on it (R11: the borrow is dropped)
-    pub struct InfoRef { pub id: usize }
+    // `Rc::downgrade(..)` are used on it (R11: the borrow is dropped, the reference is a plain &ContextInfo)
+    pub type InfoRef = ContextInfo;
 
     // Weak<RefCell<ContextInfo>>: opaque handle; `live_id` is the id it upgrades to, None once the node is gone (A5)
     #[verifier::external_body]
@@ -66,19 +94,6 @@ pub mod info {
     // ---- specification of the order vector ----
     pub open spec fn has_id(ids: Seq<Option<usize>>, id: usize) -> bool {
         exists|i: int| 0 <= i < ids.len() && #[trigger] ids[i] == Some(id)
-    }
-    // 1 + the first index holding Some(id); 0 when absent
-    pub open spec fn spec_get(ids: Seq<Option<usize>>, id: usize) -> int
-        decreases ids.len(),
-    {
-        if ids.len() == 0 {
-            0
-        } else if ids[0] == Some(id) {
-            1
-        } else {
-            let r = spec_get(ids.subrange(1, ids.len() as int), id);
-            if r == 0 { 0 } else { r + 1 }
-        }
     }
     pub open spec fn wf_ids(ids: Seq<Option<usize>>) -> bool {
         forall|i: int, j: int| 0 <= i < j < ids.len() && ids[i] is Some ==> ids[i] != ids[j]
@@ -341,7 +356,126 @@ pub mod info {
         //@@ order_push
 
         //@@ order_remove
+    }
 
+    // ---- the per-node side: HasContext trait defaults over a receiver that owns its Context (R11/R14: the
+    //      RefCells of `info` and `ordering` are dropped, `&self` becomes `&mut self`; A4) ----
+    pub struct Context {
+        pub info: ContextInfo,
+        pub ordering: DocumentOrder,
+    }
+    pub struct Item { pub ctx: Context }
+
+    // Rc::clone of the node's own info handle: the same ContextInfo
+    #[verifier::external_body]
+    pub fn shim_info_handle(info: &ContextInfo) -> (r: ContextInfo)
+        ensures r == *info,
+    {
+        unimplemented!() /* self.context().info.clone() */
+    }
+
+    // the cached key of a node is usable iff its version stamp is the order's current version
+    pub open spec fn coherent(info: ContextInfo, ordering: DocumentOrder) -> bool {
+        info.order_version <= ordering.version
+            && (info.order_version == ordering.version ==> info.order_cache == spec_get(ordering.ids(), info.id))
+    }
+
+    impl Item {
+        //@@ hc_clear_order
+
+        //@@ hc_init_order
+
+        //@@ hc_order
+
+        //@@ hc_set_order_after
+
+        //@@ hc_set_order_before
+    }
+}
+
+// =====================================================================================================
+// dom/src/lib.rs: XmlNode::order -- the key XPath sorts and de-duplicates by.  Payload structs carry their real
+// field names; an information item handle (info::XmlNode<T> = Rc<RefCell<T>>) is an opaque value with a ghost key.
+// =====================================================================================================
+pub mod dom {
+    use vstd::prelude::*;
+
+    pub struct InfoItem { pub key: usize }
+    impl InfoItem {
+        // info::HasContext::order on the borrowed item (verified above as HasContext::order)
+        #[verifier::external_body]
+        pub fn order(&self) -> (r: usize)
+            ensures r == self.key,
+        {
+            unimplemented!()
+        }
+    }
+
+    pub struct XmlAttr { pub attribute: InfoItem }
+    pub struct XmlCDataSection { pub data: InfoItem }
+    pub struct XmlComment { pub data: InfoItem }
+    pub struct XmlDocument { pub document: InfoItem }
+    pub struct XmlDocumentFragment { pub document: InfoItem }
+    pub struct XmlDocumentType { pub declaration: InfoItem }
+    pub struct XmlElement { pub element: InfoItem }
+    pub struct XmlEntity { pub entity: InfoItem }
+    pub struct XmlEntityReference { pub value: InfoItem }
+    impl XmlEntityReference {
+        #[verifier::external_body]
+        pub fn inner(&self) -> (r: &InfoItem)
+            ensures *r == self.value,
+        {
+            unimplemented!()
+        }
+    }
+    pub struct XmlNamespace { pub namespace: InfoItem }
+    pub struct XmlNotation { pub notation: InfoItem }
+    pub struct XmlProcessingInstruction { pub pi: InfoItem }
+    pub struct XmlText { pub data: InfoItem }
+    // the merged-text view holds the (non-empty) run of text-like nodes it stands for; in /repo the elements are
+    // XmlNode values and `order` recurses into the first one -- here they are item handles (one level, no recursion)
+    pub struct XmlExpandedText { pub data: Vec<InfoItem> }
+
+    pub enum XmlNode {
+        Element(XmlElement),
+        Attribute(XmlAttr),
+        Text(XmlText),
+        CData(XmlCDataSection),
+        EntityReference(XmlEntityReference),
+        Entity(XmlEntity),
+        PI(XmlProcessingInstruction),
+        Comment(XmlComment),
+        Document(XmlDocument),
+        DocumentType(XmlDocumentType),
+        DocumentFragment(XmlDocumentFragment),
+        Notation(XmlNotation),
+        Namespace(XmlNamespace),
+        ExpandedText(XmlExpandedText),
+    }
+
+    // the key of the information item a node of the document tree stands for (entities and notations hang off the
+    // DOCTYPE, not the tree: no key is demanded for them)
+    pub open spec fn item_key(n: XmlNode) -> usize {
+        match n {
+            XmlNode::Element(v) => v.element.key,
+            XmlNode::Attribute(v) => v.attribute.key,
+            XmlNode::Text(v) => v.data.key,
+            XmlNode::CData(v) => v.data.key,
+            XmlNode::EntityReference(v) => v.value.key,
+            XmlNode::PI(v) => v.pi.key,
+            XmlNode::Comment(v) => v.data.key,
+            XmlNode::Document(v) => v.document.key,
+            XmlNode::DocumentType(v) => v.declaration.key,
+            XmlNode::DocumentFragment(v) => v.document.key,
+            XmlNode::Namespace(v) => v.namespace.key,
+            XmlNode::ExpandedText(v) => v.data@[0].key,
+            XmlNode::Entity(_) => 0,
+            XmlNode::Notation(_) => 0,
+        }
+    }
+
+    impl XmlNode {
+        //@@ dom_node_order
     }
 }
 
@@ -380,12 +514,12 @@ def build():
                  ('C14:keeps_ids_unique', 'old(self).wf() ==> final(self).wf()'),
                  ('C14:removed_id_has_no_key', f'old(self).wf() ==> !(spec_get({IDS_N}, id) > 0)'),
                  ('C14:later_keys_move_down_by_one', f'old(self).wf() && {G} > 0 ==> forall|x: usize| x != id ==> spec_get({IDS_N}, x) == (if spec_get({IDS_O}, x) > {G} {{ spec_get({IDS_O}, x) - 1 }} else {{ #[trigger] spec_get({IDS_O}, x) }})')],
-        inject=[(r'self\.version \+= 1;', 'proof { lemma_ids_edits(old(self).order@, (' + G + ' - 1) as int, arbitrary()); if old(self).wf() { lemma_remove_first(' + IDS_O + ', id); } }'),
-                (r'^\s*None\s*$', 'proof { }', 'before')])
+        inject=[(r'self\.order\.remove\(', 'proof { lemma_ids_edits(old(self).order@, (' + G + ' - 1) as int, arbitrary()); if old(self).wf() { lemma_remove_first(' + IDS_O + ', id); } }'),
+                ])
     fns['order_push'] = Fn(
         FI, OWN, 'push', props=P, sig_rules=[PUB, R_SING], rules=[R_DOWN], label='DocumentOrder::push',
         ensures=[('C14:appends_the_id', f'{IDS_N} =~= {IDS_O}.push(Some(info.id))'),
-                 ('C14:returns_new_length_and_unchanged_version', 'r == (final(self).order@.len() as usize, old(self).version) && final(self).version == old(self).version && final(self).order@.len() == old(self).order@.len() + 1'),
+                 ('C14:returns_new_length_and_unchanged_version', 'r.0 == final(self).order@.len() && r.1 == old(self).version && final(self).version == old(self).version && final(self).order@.len() == old(self).order@.len() + 1'),
                  ('C14:fresh_id_gets_the_last_key', f'!(spec_get({IDS_O}, info.id) > 0) ==> spec_get({IDS_N}, info.id) == r.0'),
                  ('C14:other_keys_do_not_move', f'forall|x: usize| x != info.id ==> spec_get({IDS_N}, x) == #[trigger] spec_get({IDS_O}, x)'),
                  ('C14:keeps_ids_unique', f'old(self).wf() && !(spec_get({IDS_O}, info.id) > 0) ==> final(self).wf()')],
@@ -402,12 +536,54 @@ def build():
             ensures=[('C14:reference_present_succeeds', f'{G1} > 0 && id != {A} ==> r is Some && final(self).version > old(self).version'),
                      ('C14:inserts_next_to_reference', f'r is Some ==> {IDS_N} =~= {IDS1}.insert({at}, Some({A}))'),
                      ('C14:failed_call_changes_nothing', f'r is None ==> {IDS_N} =~= {IDS_O} && final(self).version == old(self).version'),
+                     ('C14:success_bumps_version', 'r is Some ==> final(self).version > old(self).version'),
                      ('C14:fails_only_without_reference', f'r is None ==> !(spec_get({IDS_O}, id) > 0) || id == {A}'),
                      ('C14:keeps_ids_unique', 'final(self).wf()'),
                      ('C14:key_is_adjacent_to_reference', f'r is Some ==> {rel}')],
             inject=[(r'^\s*return None;', 'proof { if spec_get(self.ids(), info.id) > 0 { lemma_remove_first(self.ids(), info.id); } }', 'before optional'),
                     (r'let order = self\.get\(id\);', 'let ghost __o1 = self.order@;'),
-                    (r'self\.version \+= 1;', f'proof {{ lemma_ids_edits(__o1, {k}, self.order@[{k}]); lemma_insert_at(ids_of(__o1), {k}, info.id); }}')])
+                    (r'self\.order\.insert\(', f'proof {{ lemma_ids_edits(__o1, {k}, self.order@[{k}]); lemma_insert_at(ids_of(__o1), {k}, info.id); }}')])
+    TR = 'pub trait HasContext'
+    R_CTX = Rule('R11', r'self\s*\.context\(\)\s*\.', 'self.ctx.', 'self.context() -> the receiver\'s own Context field')
+    R_BOR = Rule('R11', r'\.borrow(?:_mut)?\(\)\s*\.', '.', 'RefCell borrow dropped (A4)')
+    R_MUT = Rule('R14', r'\(&self\b', '(&mut self', '&self of a method that mutates through RefCell -> &mut self (A4)')
+    R_HANDLE = Rule('R11', r'self\.ctx\.info\.clone\(\)', 'shim_info_handle(&self.ctx.info)', 'Rc::clone of the info handle -> the same ContextInfo')
+    R_PUSHARG = Rule('R11', r'\.push\(&self\.ctx\.info\)', '.push(&self.ctx.info)', 'unchanged')
+    HR = [R_CTX, R_BOR, R_HANDLE]
+    OC = 'old(self).ctx'
+    NC = 'final(self).ctx'
+    COH_IN = ('cache_coherent', 'coherent(old(self).ctx.info, old(self).ctx.ordering)')
+    WF_IN = ('ids_unique', 'old(self).ctx.ordering.wf()')
+    COH = ('C14:cache_stays_coherent', f'coherent({NC}.info, {NC}.ordering) && {NC}.info.id == {OC}.info.id')
+    OTHERS = ('C14:other_nodes_caches_stay_coherent', f'forall|j: ContextInfo| j.id != {OC}.info.id && #[trigger] coherent(j, {OC}.ordering) ==> coherent(j, {NC}.ordering)')
+    WF_OUT = ('C14:keeps_ids_unique', f'{NC}.ordering.wf()')
+    fns['hc_order'] = Fn(
+        FI, TR, 'order', props=P, sig_rules=[PUB, R_MUT], rules=HR, label='HasContext::order (trait default)',
+        requires=[COH_IN],
+        ensures=[('C14:returns_the_current_key', f'r == spec_get({OC}.ordering.ids(), {OC}.info.id)'),
+                 ('C14:order_vector_untouched', f'{NC}.ordering == {OC}.ordering'), COH])
+    fns['hc_init_order'] = Fn(
+        FI, TR, 'init_order', props=P, sig_rules=[PUB, R_MUT], rules=HR, label='HasContext::init_order (trait default)',
+        requires=[WF_IN, ('not_numbered_yet', f'!(spec_get({OC}.ordering.ids(), {OC}.info.id) > 0)')],
+        ensures=[('C14:appended_with_the_last_key', f'{NC}.ordering.ids() =~= {OC}.ordering.ids().push(Some({OC}.info.id)) && spec_get({NC}.ordering.ids(), {OC}.info.id) == {OC}.ordering.ids().len() + 1'),
+                 COH, OTHERS, WF_OUT])
+    fns['hc_clear_order'] = Fn(
+        FI, TR, 'clear_order', props=P, sig_rules=[PUB, R_MUT], rules=HR, label='HasContext::clear_order (trait default)',
+        requires=[WF_IN, COH_IN, ('version_has_room', f'{OC}.ordering.version < usize::MAX')],
+        ensures=[('C14:node_has_no_key_afterwards', f'!(spec_get({NC}.ordering.ids(), {OC}.info.id) > 0)'), COH, OTHERS, WF_OUT])
+    for (key, name, rel) in (('hc_set_order_after', 'set_order_after', f'spec_get({NC}.ordering.ids(), {OC}.info.id) == spec_get({NC}.ordering.ids(), id) + 1'),
+                             ('hc_set_order_before', 'set_order_before', f'spec_get({NC}.ordering.ids(), {OC}.info.id) + 1 == spec_get({NC}.ordering.ids(), id)')):
+        fns[key] = Fn(
+            FI, TR, name, props=P, sig_rules=[PUB, R_MUT], rules=HR, label=f'HasContext::{name} (trait default)',
+            requires=[WF_IN, COH_IN, ('version_has_room', f'{OC}.ordering.version < usize::MAX - 1')],
+            ensures=[('C14:returns_the_new_key_next_to_the_reference', f'r is Some ==> r->Some_0 == spec_get({NC}.ordering.ids(), {OC}.info.id) && {rel}'),
+                     ('C14:refused_call_changes_nothing', f'r is None ==> {NC}.ordering.ids() =~= {OC}.ordering.ids() && {NC}.ordering.version == {OC}.ordering.version && {NC}.info == {OC}.info'),
+                     COH, OTHERS, WF_OUT])
+    fns['dom_node_order'] = Fn(
+        FD, 'impl XmlNode', 'order', props=P, sig_rules=[PUB], rules=[Rule('R11', r'\.borrow\(\)\.order\(\)', '.order()', 'RefCell borrow dropped (A4)')],
+        label='dom::XmlNode::order',
+        requires=[('expanded_text_is_non_empty', 'self is ExpandedText ==> self->ExpandedText_0.data@.len() > 0')],
+        ensures=[('C14:key_of_the_underlying_item', '!(self is Entity) && !(self is Notation) ==> r == item_key(*self)')])
     return ENV, fns
 
 
